@@ -151,3 +151,15 @@ def result_twice(op, m):
     if not _same_result(keep, r2):
         raise AssertionError('%s: the second execution of the same operation object on the same model returns another result' % type(op).__name__)
     return r2
+
+
+def zero_group_cards(shape):
+    """cardinality vectors with one group relation set to [0..0] (legal: no member may be selected)."""
+    out = []
+    rels = R.relations_of(shape)
+    for ri, (p, cs) in enumerate(rels):
+        if len(cs) > 1:
+            c = R.default_cards(shape)
+            c[ri] = (0, 0)
+            out.append(c)
+    return out
